@@ -115,6 +115,8 @@ class Context:
         return self._progs[config]
 
     def rule(self, rid, title, config="default"):
+        self.titles = getattr(self, "titles", {})
+        self.titles.setdefault(rid, title)
         return Rule(self, rid, title, config)
 
     def note(self, text):
@@ -235,7 +237,7 @@ def write_evidence(mod, ctx, prop, tier, wall, n_unlisted, n_known, viols, known
             s["detail"] = s["detail"][:600] + "…"
     rules = {}
     for o in obs:
-        r = rules.setdefault(o.rule, {"obligations": 0, "hold": 0})
+        r = rules.setdefault(o.rule, {"title": getattr(ctx, "titles", {}).get(o.rule, ""), "obligations": 0, "hold": 0})
         r["obligations"] += 1
         r["hold"] += 1 if o.ok else 0
     seed = int(os.environ.get("VERIF_SEED", "0") or 0)
@@ -263,6 +265,7 @@ def write_evidence(mod, ctx, prop, tier, wall, n_unlisted, n_known, viols, known
             "functions_analysed_count": len(core.STATS.get("fns", set())),
             "call_sites_matched": core.STATS.get("calls", 0),
             "known_findings_reported": n_known,
+            "helpers_spliced": sorted({h for pr in ctx._progs.values() for h in getattr(pr, "inlined_helpers", [])}),
             "unlisted_violations": n_unlisted,
             "violation_keys": sorted(viols.keys()),
             "checker_cmd": "bin/check %s --tier %s" % (prop, tier),
